@@ -398,7 +398,8 @@ def run(ctx):
         runs = [dict(MaxOps=1, MaxWrap=2, Bases="{1, 2, 3, 4, 5, 6, 7, 8, 9, 10, 11, 12}"), dict(MaxOps=1, MaxWrap=1, Bases="{13, 14, 15, 16, 17, 18, 19}"), dict(MaxOps=1, MaxWrap=3, Bases="{1, 3, 7}"), dict(MaxOps=2, MaxWrap=1, Bases="{2, 4, 7, 9, 11}"),
                 dict(MaxOps=2, MaxWrap=1, Bases="{14, 15, 18}", CtrlOnly=True), dict(MaxOps=2, MaxWrap=2, Bases="{3}", CtrlOnly=True), dict(MaxOps=2, MaxWrap=0, Bases="{2, 13, 14, 15, 16, 19}")]
     else:
-        runs = [dict(MaxOps=1, MaxWrap=3, Bases=allb), dict(MaxOps=2, MaxWrap=1, Bases=allb), dict(MaxOps=3, MaxWrap=1, Bases="{2, 7, 9}"),
+        runs = [dict(MaxOps=1, MaxWrap=3, Bases="{1, 2, 3, 4, 5, 6, 7, 8, 9, 10, 11, 12}"), dict(MaxOps=1, MaxWrap=2, Bases="{13, 14, 15, 16, 17, 18, 19}"),
+                dict(MaxOps=2, MaxWrap=1, Bases="{1, 2, 3, 4, 5, 6, 7, 8, 9, 10, 11, 12}"), dict(MaxOps=2, MaxWrap=0, Bases=allb), dict(MaxOps=3, MaxWrap=1, Bases="{2, 7, 9}"),
                 dict(MaxOps=3, MaxWrap=2, Bases="{3}", CtrlOnly=True), dict(MaxOps=3, MaxWrap=1, Bases="{14, 15, 18}", CtrlOnly=True)]
     ctx.bounds = {"run%d" % i: r for i, r in enumerate(runs)}
     cases, seen = [], set()
